@@ -15,6 +15,14 @@ Sub-checks (all lattice sweeps; a case = one configuration, the scripted driver 
              LevyForwardModel, directly, and through the create_levy_forward_market_model helpers)}
            x two float initial values (plus the Python int x0=1 for Constant, 1-d HEM)
            x levels {0 (single process, standalone and CouplingSDE at level 0), 1, 2 (coupled pair)}
+           x for the coupled pair, three HISTORIES by which the object reaches its level (each on its own fresh model):
+               coupled            fast-forward: next_level() `level` times, nothing simulated in between
+               coupled-hist       Engine.price_with_constant_mc_paths_and_level: one object; at every intermediate level
+                                  (0 included) pre_computation, one scripted two-step word simulated, then next_level()
+               coupled-hist-copy  Engine.price: as before, but the object is copy.deepcopy-ed after it has simulated and
+                                  next_level() is called on the copy
+             (state cached on the object by a simulation at level l-1 must not leak into level l; thorough: the two history
+              variants run the words of length <= 2)
            x scripted driver paths: all words of length 1..3 over the step alphabet DT x DL x DW with
              quick     DT={0.25,1.0}       DL={-0.2,0.1}       DW={-0.3,0.4}            (8 letters,   584 words)
              thorough  DT={0.25,1.0,0.5}   DL={-0.2,0.1,0.0*}  DW={-0.3,0.4,0.0}        (27 letters, 20439 words)
@@ -36,7 +44,8 @@ Sub-checks (all lattice sweeps; a case = one configuration, the scripted driver 
            what the Libor drift is; only when and where it is evaluated is checked).
            Tolerance |x-y| <= 1e-9 * max|X| (maximum over the path, which contains x0): the two sides differ by
            re-association only.
- captured  the same configurations (first initial value), but the real driver is left in place and wrapped so that the path
+ captured  the same configurations (first initial value, same three histories; the warm-up path at the intermediate levels is
+           simulated by the real driver), but the real driver is left in place and wrapped so that the path
            it hands over is recorded; 6 paths per configuration under a *scripted* generator (numpy.random.poisson returns
            0,1,3,6,2,4 jumps in turn, uniform/random_sample a Weyl sequence, normal a 5-cycle).  Checks that exactly one driver
            path is consumed per SDE path, that the real path has the array layout the scripted words use (times (n,), values
@@ -47,7 +56,7 @@ Sub-checks (all lattice sweeps; a case = one configuration, the scripted driver 
            along the mesh (slack 4 ulp), |df(T +- 1e-9) - df(T)| <= 1e-7 at every tenor.  The other model classes (Levy model,
            exponential model with r in {0, 0.02, 0.05}, copula model, plain LevyDrivenSDEModel) on a mesh of [0,10].
 
-Violation keys: C16:euler:<single|coupling-l0|coupled[:fine|:coarse]>:<coefficient function[:how built]>:<failure>:driver-d=<d>:
+Violation keys: C16:euler:<single|coupling-l0|coupled|coupled-hist|coupled-hist-copy[:fine|:coarse]>:<coefficient function[:how built]>:<failure>:driver-d=<d>:
 <t<first-tenor | t>=first-tenor | no-tenors>:<x0=float|x0=int>[:captured]   and   C16:df:<model class>:<failure>:<where>[:side].
 A violation of the euler sub-check carries the failing word (case field ``only_word``): its replay runs that word alone.
 For the tenor-based functions the class ``t>=first-tenor`` means that some step of the word starts at or after the first
@@ -320,8 +329,21 @@ def build_single(model, d, maturity):
     return proc
 
 
-def build_coupling(model, d, level, maturity):
-    """CouplingSDE taken to `level` the way the multilevel engine does. -> (coupling, path managers)"""
+HISTORIES = ["fast-forward", "same-object", "deepcopy"]
+HISTORY_NAME = {"fast-forward": "coupled", "same-object": "coupled-hist", "deepcopy": "coupled-hist-copy"}
+
+
+def build_coupling(model, d, level, maturity, history="fast-forward", warm=None):
+    """CouplingSDE taken to `level` the way the multilevel engine does. -> (coupling, path managers, warm-up errors)
+
+    history   "fast-forward": next_level() `level` times on a fresh object, nothing simulated in between;
+              "same-object":  Engine.price_with_constant_mc_paths_and_level - one object; at every level pre_computation, one
+                              path simulated (warm(cp, lvl)), then next_level();
+              "deepcopy":     Engine.price - the level l-1 object simulates, is deep-copied, and next_level() is called on the
+                              copy.
+    """
+    import copy
+
     from rpylib.montecarlo.path import MLMCPath
     from rpylib.process.coupling.couplingsde import CouplingSDE
 
@@ -331,9 +353,51 @@ def build_coupling(model, d, level, maturity):
     cp.initialisation(product)
     pms = [MLMCPath(deterministic_path=cp.fine_process.deterministic_path, activate_spot_underlying=False)]
     cp.pre_computation(1, product)
-    for _ in range(level):
+    errors = []
+    for lvl in range(level):
+        if history != "fast-forward":
+            cp.reset_one_simulation_cost()
+            cp.pre_computation(mc_paths=1, product=product)
+            try:
+                warm(cp, lvl)
+            except Exception as e:  # reported by the configuration of that level, not by this one
+                errors.append(f"level {lvl}: {type(e).__name__}")
+            if history == "deepcopy":
+                cp = copy.deepcopy(cp)
         cp.next_level(1, pms, product=product)
-    return cp, pms
+    if history != "fast-forward":
+        cp.reset_one_simulation_cost()
+        cp.pre_computation(mc_paths=1, product=product)
+    return cp, pms, errors
+
+
+def seam_of(cp, lvl):
+    """(owner, attribute, simulate) of the driver seam of a CouplingSDE standing at level lvl."""
+    if lvl == 0:
+        return cp.fine_process.markov_chain, "simulate_one_path", cp.simulate_one_path
+    return cp.driver_coupling_process, "simulate_one_path_with_coupling", cp.simulate_one_path_with_coupling
+
+
+def scripted_warm(d, tier):
+    """Warm-up for the euler sub-check: one scripted two-step word is simulated at the intermediate level, then the seam is
+    removed again so that the object (and its deep copy) is the library's own."""
+
+    def warm(cp, lvl):
+        letters = _letters(d, lvl > 0, tier)
+        path = scripted_path([letters[1], letters[6]], lvl > 0, d)
+        owner, attr, simulate = seam_of(cp, lvl)
+        setattr(owner, attr, lambda _p=path: _p)
+        try:
+            simulate()
+        finally:
+            delattr(owner, attr)
+
+    return warm
+
+
+def real_warm(cp, lvl):
+    """Warm-up for the captured sub-check: the real driver simulates one path (under the scripted generator)."""
+    seam_of(cp, lvl)[2]()
 
 
 _DRIFT_CACHE = {}
@@ -546,7 +610,7 @@ def _as2d(arr, d):
 class Config:
     """One configuration with its real objects and its oracle pieces."""
 
-    def __init__(self, case, maturity=3.0):
+    def __init__(self, case, maturity=3.0, warm=None):
         _quiet()
         self.case = case
         self.drv = case["driver"]
@@ -563,14 +627,20 @@ class Config:
             self.objects.append(("single", proc, proc.simulate_one_path, proc.markov_chain, "simulate_one_path",
                                  proc.deterministic_path, proc))
             model2, _ = make_model(self.drv, self.c, case["x0"])
-            cp, pms = build_coupling(model2, self.d, 0, maturity)
+            cp, pms, _ = build_coupling(model2, self.d, 0, maturity)
             self.objects.append(("coupling-l0", cp, cp.simulate_one_path, cp.fine_process.markov_chain, "simulate_one_path",
                                  pms[0].deterministic_path, cp.fine_process))
             self.mus = [reference_drift(self.drv, 0)]
         else:
-            cp, pms = build_coupling(self.model, self.d, self.level, maturity)
-            self.objects.append(("coupled", cp, cp.simulate_one_path_with_coupling, cp.driver_coupling_process,
-                                 "simulate_one_path_with_coupling", pms[-1].deterministic_path, cp.fine_process))
+            self.warmup_errors = []
+            for history in HISTORIES:
+                model_h, _ = make_model(self.drv, self.c, case["x0"])
+                if history == "fast-forward":
+                    self.model = model_h
+                cp, pms, errs = build_coupling(model_h, self.d, self.level, maturity, history=history, warm=warm)
+                self.warmup_errors += errs
+                self.objects.append((HISTORY_NAME[history], cp, cp.simulate_one_path_with_coupling, cp.driver_coupling_process,
+                                     "simulate_one_path_with_coupling", pms[-1].deterministic_path, cp.fine_process))
             self.mus = [reference_drift(self.drv, self.level), reference_drift(self.drv, self.level - 1)]
         self.coupled = self.level > 0
 
@@ -658,14 +728,17 @@ def check_case(sh, case):
     {"euler": _sub_euler, "captured": _sub_captured, "df": _sub_df}[case["sub"]](sh, case)
 
 
-def _build(sh, case, maturity):
+def _build(sh, case, maturity, warm=None):
     """Build the configuration; a failure to build the real objects is reported (the constructors are part of the way users
     reach the scheme)."""
     d = DRIVER_DIM[case["driver"]]
     label = coef_label(case["coef"], d)
     x0cls = "x0=int" if case["x0"] == "int" else "x0=float"
     try:
-        return Config(case, maturity)
+        cfg = Config(case, maturity, warm)
+        if getattr(cfg, "warmup_errors", None):
+            sh.count("warmup_simulations_that_raised", len(cfg.warmup_errors))
+        return cfg
     except Exception as e:
         proc = "single" if case["level"] == 0 else "coupled"
         sh.violation(f"C16:euler:{proc}:{label}:construction-raises-{type(e).__name__}:driver-d={d}:level={case['level']}:{x0cls}",
@@ -675,7 +748,7 @@ def _build(sh, case, maturity):
 
 def _sub_euler(sh, case):
     with forbidden_rng():
-        cfg = _build(sh, case, maturity=3.0)
+        cfg = _build(sh, case, maturity=3.0, warm=scripted_warm(DRIVER_DIM[case["driver"]], case["tier"]))
         if cfg is None:
             return
         sh.cls(f"coef:{cfg.label}")
@@ -695,6 +768,8 @@ def _sub_euler(sh, case):
             n_words += 1
             sh.case = dict(case, only_word=list(idx))  # a violation carries the word, so that its replay runs that word alone
             for (name, obj, simulate, seam_owner, seam_attr, det_path, sde_owner) in cfg.objects:
+                if len(idx) > 2 and name in ("coupled-hist", "coupled-hist-copy") and case["tier"] == "thorough":
+                    continue  # thorough: the two history variants run the words of length <= 2 (756 of them)
                 path = scripted_path(word, cfg.coupled, cfg.d)
                 keep = (path.jump_times.copy(), path.diffusion_path.copy(), path.jump_path.copy())
                 calls = []
@@ -740,7 +815,7 @@ def _sub_captured(sh, case):
     if c["kind"] == "libor-direct":
         maturity = 2.5
     with rng.active():
-        cfg = _build(sh, case, maturity)
+        cfg = _build(sh, case, maturity, warm=real_warm)
         if cfg is None:
             return
         sh.cls(f"captured:{cfg.label}:level={cfg.level}")
